@@ -10,7 +10,7 @@ from ..context import Ctx
 from ..dataflow import flow_of
 from ..program import FunctionInfo, dotted, norm, own_nodes
 from ..report import RuleResult
-from ..shape import facts_at, inline_locals, ntext
+from ..shape import facts_at, holds_one_of, inline_locals, ntext
 
 
 def _rets(f: FunctionInfo) -> List[ast.Return]:
@@ -90,7 +90,40 @@ def rule_nav(ctx: Ctx) -> RuleResult:
     key_p = g.params[1] if len(g.params) > 1 else "key"
     loops = [(n, sh) for n in own_nodes(g.node) if isinstance(n, ast.For) for sh in [_fields_loop(n)] if sh is not None]
     problems = []
-    if len(loops) != 1:
+    # necessary whatever the spelling: the answer is the empty Sid or a Sid rebuilt from fields, and it is empty only for an untyped
+    # Sid or a key the Sid does not have
+    for r_ in _rets(g):
+        v_ = r_.value
+        if v_ is None:
+            problems.append("a bare return")
+            continue
+        if _is_empty_sid(v_):
+            if not holds_one_of(ctx, g, r_, [("self._fields", False), (f"{key_p} in self._fields", False)]):
+                problems.append(f"`{norm(r_)}` (the empty Sid) is not confined to 'no fields' / 'key not in the fields': it is also the answer for keys "
+                                f"the Sid has")
+            continue
+        v2_ = inline_locals(g, v_, r_, depth=1) if isinstance(v_, ast.Name) else v_
+        if not (isinstance(v2_, ast.Call) and dotted(v2_.func) == "Sid" and not v2_.args and len(v2_.keywords) == 1 and v2_.keywords[0].arg == "fields"):
+            problems.append(f"`{norm(r_)[:70]}` is not the empty Sid and not Sid(fields=<prefix of the fields>): the answer is typed by something else "
+                            f"than the field prefix")
+    if not loops:
+        # the prefix cut out by the position of the key among the keys
+        import re as _re
+
+        built_ = [r_ for r_ in _rets(g) if isinstance(r_.value, ast.Call) and dotted(r_.value.func) == "Sid" and r_.value.keywords]
+        keys_ = r"list\(self\._fields(?:\.keys\(\))?\)"
+        pos_ = rf"{keys_}\.index\({key_p}\) \+ 1"
+        forms_ = [rf"\{{(\w+): self\._fields\[\1\] for \1 in {keys_}\[:{pos_}\]\}}",
+                  rf"\{{(\w+): (\w+) for \(?\1, \2\)? in list\(self\._fields\.items\(\)\)\[:{pos_}\]\}}",
+                  rf"dict\(list\(self\._fields\.items\(\)\)\[:{pos_}\]\)",
+                  rf"dict\((?:itertools\.)?islice\(self\._fields\.items\(\), {pos_}\)\)"]
+        if len(built_) != 1:
+            problems.append("no single Sid(fields=...) result")
+        else:
+            txt_ = norm(inline_locals(g, built_[0].value.keywords[0].value, built_[0]))
+            if not any(_re.fullmatch(f_, txt_) for f_ in forms_):
+                problems.append(f"the result is not the prefix of the fields up to and including the key (`{txt_[:90]}`)")
+    elif len(loops) != 1:
         problems.append("no single loop over self._fields.items()")
     else:
         lp, (kvar, vvar, posvar, pstart) = loops[0]
@@ -134,7 +167,7 @@ def rule_nav(ctx: Ctx) -> RuleResult:
             else:
                 problems.append("loop body is not one store and one return")
     guards = [r for r in _rets(g) if _is_empty_sid(r.value)]
-    if len(guards) < 2:
+    if not guards:
         problems.append("the untyped / unknown-key fallbacks (empty Sid) are missing")
     if problems:
         res.violation(["spil.sid.sid.TypedSid.get_as", "shape"], "TypedSid.get_as: " + "; ".join(problems), g.relpath, g.node.lineno)
@@ -556,8 +589,21 @@ def rule_getwith(ctx: Ctx) -> RuleResult:
             for g_ in n.generators for i_ in g_.ifs for c_ in ast.walk(i_))]
         if not any(under_none(n) for n in removes) and not (removes and comp_removes):
             problems.append("a None value does not remove the key from the copied fields")
+        def only_none(node) -> bool:
+            """under `<value> is None` and under nothing else that was not already known where that test is made"""
+            fs = facts_at(ctx, f, node)
+            for stt in own_nodes(f.node):
+                if isinstance(stt, ast.If) and any(c_ in none_tests for c_ in ast.walk(stt.test)):
+                    base = facts_at(ctx, f, stt)
+                    extra = {(t, tr) for t, tr in fs if (t, tr) not in base and not t.endswith(" is None")}
+                    if any(tr and t.endswith(" is None") for t, tr in fs) and not extra:
+                        return True
+            return False
+
         kw_pops = [n for n in own_nodes(f.node) if isinstance(n, ast.Call) and isinstance(n.func, ast.Attribute) and n.func.attr == "pop"
                    and norm(n.func.value) == kw and under_none(n)]
+        if kw_pops and not any(only_none(n) for n in kw_pops):
+            problems.append("a None value stays in the overlay under some further condition and is then written into the rebuilt fields")
         filtered = [n for n in own_nodes(f.node) if isinstance(n, (ast.DictComp, ast.GeneratorExp, ast.ListComp)) and any(
             isinstance(c_, ast.Compare) and isinstance(c_.ops[0], ast.IsNot) and isinstance(c_.comparators[0], ast.Constant) and c_.comparators[0].value is None
             for g_ in n.generators for i_ in g_.ifs for c_ in ast.walk(i_))]
@@ -597,6 +643,18 @@ def rule_getwith(ctx: Ctx) -> RuleResult:
         if _is_rebuilt(v, r):
             continue
         problems.append(f"`{norm(r)}` returns something that is not a rebuilt Sid")
+    # a second construction from the joined values is a fallback for an overlay that fits no type: only then
+    if len(built) == 1:
+        from ..shape import facts_at as _fa
+
+        holder = next((d.var for d in flow.all_defs if d.kind == "assign" and d.value is built[0]), None)
+        qcalls = {id(x) for r in qret for x in ast.walk(r)}
+        for n in own_nodes(f.node):
+            if isinstance(n, ast.Call) and dotted(n.func) == "Sid" and n is not built[0] and id(n) not in qcalls and (n.args or n.keywords):
+                fs = _fa(ctx, f, n)
+                if holder is None or (holder, False) not in fs:
+                    problems.append(f"`{norm(n)[:60]}` replaces the overlaid Sid although it may be typed: the returned fields can differ "
+                                    f"from the requested overlay")
     if problems:
         res.violation([f.qualname, "overlay"], "get_with: " + "; ".join(dict.fromkeys(problems)), f.relpath, f.node.lineno)
     else:
